@@ -102,7 +102,7 @@ PROPS["C17"] = dict(
     modules=["FjallModel.Props.C17"],
     theorems=["Fjall.Version.c17_version_accepts_iff", "Fjall.Version.c17_refused_open_writes_nothing",
               "Fjall.Version.c17_locked_refuses", "Fjall.Version.c17_open_ok_only_when_free",
-              "Fjall.Version.c17_unlocked_after_last_drop", "Fjall.Version.c17_marker_absent_refused"],
+              "Fjall.Version.c17_unlocked_after_last_drop", "Fjall.Version.c17_late_lock_spoils_live_directory", "Fjall.Version.c17_marker_absent_refused"],
     statements={
         "c17_version_accepts_iff": "forall marker bytes: checkVersion bytes = ok <-> bytes starts with 'F' 'J' 'L' 0x03",
         "c17_refused_open_writes_nothing": "on a directory with a marker, a refused open (wrong/unknown version, or locked) leaves the directory state unchanged",
@@ -520,7 +520,7 @@ PROPS["C14"] = dict(
     theorems=["Fjall.Conc.c14_linearizable", "Fjall.Conc.c14_real_time", "Fjall.Conc.c14_orders_agree", "Fjall.Conc.c14_final_content",
               "Fjall.Stall.c14_stall_no_deadlock", "Fjall.Stall.c14_stall_bounded_work",
               "Fjall.Stall.c14_worker_blocking_send_deadlocks", "Fjall.Stall.c14_stall_inside_lock_deadlocks",
-              "Fjall.Conc.c14_get_then_scan_counterexample"],
+              "Fjall.L0Halt.c14_l0_halt_releases", "Fjall.L0Halt.c14_l0_halt_stale_version_never_releases", "Fjall.Conc.c14_get_then_scan_counterexample"],
     statements={
         "c14_get_then_scan_counterexample": "known finding F27 on the Conc model: a get sees an applied, unpublished item and the scan opened afterwards does not "
                                             "(c14_linearizable is about writes and point reads; scans are snapshot reads)",
